@@ -789,10 +789,24 @@ fn gen_case(batch: &str, _index: u64, seed: u64) -> Case {
         let off = *pr.pick(&[0.0, 0.0, 100.0, -5.0]);
         y = x.iter().map(|row| off + row.iter().zip(&coef).map(|(a, b)| a * b).sum::<f64>() + 0.3 * r.gaussish()).collect();
     }
-    let seedv = match pr.below(6) {
+    // seeds: random u64, the obvious corners, and structured values around the arithmetic boundaries of the
+    // usual seed mixers (golden-ratio and splitmix constants: seed ^ K or seed + K close to u64::MAX or to 0)
+    const MIXERS: [u64; 4] = [0x9E37_79B9_7F4A_7C15, 0xBF58_476D_1CE4_E5B9, 0x94D0_49BB_1331_11EB, 0x2545_F491_4F6C_DD1D];
+    let seedv = match pr.below(8) {
         0 => 0,
         1 => 1,
         2 => u64::MAX,
+        3 => {
+            let k = *pr.pick(&MIXERS);
+            let d = pr.below(4);
+            match pr.below(4) {
+                0 => (u64::MAX ^ k).wrapping_sub(d),
+                1 => (u64::MAX - k).wrapping_add(d),
+                2 => k.wrapping_sub(d),
+                _ => (0u64.wrapping_sub(k)).wrapping_add(d),
+            }
+        }
+        4 => *pr.pick(&[u64::MAX - 1, 1 << 63, (1 << 63) - 1, 1 << 32, (1 << 32) - 1, u32::MAX as u64 + 1]),
         _ => pr.u64(),
     };
     let params = Params {
